@@ -36,7 +36,7 @@ import (
 
 var res *report.Result
 
-var kinds = []string{"ok", "failover", "midreset", "b5xx", "abort"}
+var kinds = []string{"ok", "failover", "midreset", "b5xx", "abort", "ok204"}
 
 const okBody = `{"id":"x","object":"chat.completion","model":"m1","choices":[{"index":0,"message":{"role":"assistant","content":"hello"},"finish_reason":"stop"}],"usage":{"prompt_tokens":1,"completion_tokens":1,"total_tokens":2}}`
 
@@ -127,6 +127,9 @@ func (w *world) plan(name string, q *stack.Request) stack.Behaviour {
 		return stack.Behaviour{Kind: "respond", Status: 200, Framing: "cl", Body: []byte(okBody), Cut: 40, After: "rst", Headers: [][2]string{{"Content-Type", "application/json"}}}
 	case "b5xx":
 		return stack.Behaviour{Kind: "respond", Status: 500, Framing: "cl", Body: []byte(`{"error":{"message":"boom"}}`), Cut: -1, After: "complete", Headers: [][2]string{{"Content-Type", "application/json"}}}
+	case "ok204":
+		// a success without a body (a preflight or a DELETE answered 204 No Content)
+		return stack.Behaviour{Kind: "respond", Status: 204, Framing: "close", Body: nil, Cut: -1, After: "complete", Headers: [][2]string{{"X-Empty", "1"}}}
 	case "abort":
 		// the client goes away while the backend has not answered yet; the backend then waits for olla to
 		// drop the upstream connection (cancellation), so the outcome does not depend on a write race
@@ -237,7 +240,8 @@ func (w *world) run(ks []string, prefix []int, checkGauges bool) (*gate.Controll
 		}
 		go func() {
 			r := stack.Do(w.o.Addr, req)
-			results[t] = clientResult{r.Status, r.Status >= 200 && r.Status < 300 && r.BodyErr == "" && strings.Contains(string(r.Body), "hello") && len(r.Body) == len(okBody)}
+			results[t] = clientResult{r.Status, r.Status >= 200 && r.Status < 300 && r.BodyErr == "" && strings.Contains(string(r.Body), "hello") && len(r.Body) == len(okBody) ||
+				ks[t] == "ok204" && r.Status == 204 && r.BodyErr == "" && len(r.Body) == 0}
 			done()
 		}()
 	}
@@ -355,7 +359,7 @@ func p1(w *world) map[string]vec {
 		}
 		// learn per-class delta: a single request of kind "failover" makes two attempts (connfail on A, ok on B)
 		switch k {
-		case "ok", "midreset", "b5xx", "abort":
+		case "ok", "midreset", "b5xx", "abort", "ok204":
 			learnt[k] = d
 		case "failover":
 			if okv, have := learnt["ok"]; have && len(att) == 2 {
